@@ -22,15 +22,12 @@ Definition touches (e : edge) (v : nat) : bool := (fst e =? v) || (snd e =? v).
    with (v1, v2) = e1, evaluated on the row e2 *)
 Definition shares (e1 e2 : edge) : bool := touches e2 (fst e1) || touches e2 (snd e1).
 
-Definition indexed {A : Type} (l : list A) : list (nat * A) := combine (seq 0 (length l)) l.
+Definition e0 : edge := (0, 0).
 
 (* graph_utils.py:230-248 edge_neighbours(lattice, i): the other edges that touch an endpoint
-   of edge i, in increasing order (np.where) *)
+   of edge i, in increasing order (np.where).  (i >= n_edges: IndexError in numpy; never reached.) *)
 Definition edge_neighbours (edges : list edge) (i : nat) : list nat :=
-  match nth_error edges i with
-  | None => []                                   (* IndexError in numpy; never reached: i < n_edges *)
-  | Some e => map fst (filter (fun p => negb (fst p =? i) && shares e (snd p)) (indexed edges))
-  end.
+  filter (fun j => negb (j =? i) && shares (nth i edges e0) (nth j edges e0)) (seq 0 (length edges)).
 
 (* graph_color.py:87-88, 149   l = arange(k * n).reshape(k, n) + 1 :  l[i, c] = i*n + c + 1 *)
 Definition lit (n i c : nat) : Z := (Z.of_nat (i * n + c) + 1)%Z.
@@ -77,7 +74,7 @@ Definition vertex_color_cnf (adj : list edge) (n : nat) : option cnf :=
 (* lattice.py:337-339  the edges at vertex v (the order of lattice.vertices.adjacent_edges[v] is
    angular; only the SET matters for the formula, we list them in increasing order) *)
 Definition incident (edges : list edge) (v : nat) : list nat :=
-  map fst (filter (fun p => touches (snd p) v) (indexed edges)).
+  filter (fun e => touches (nth e edges e0) v) (seq 0 (length edges)).
 
 (* graph_utils.py:482   lits = adjacent_edges[i] + 1 *)
 Definition dlit (e : nat) : Z := (Z.of_nat e + 1)%Z.
@@ -179,8 +176,6 @@ Section WithSolver.
 End WithSolver.
 
 (* ---------------------------------------------------------------- spec checkers (S) *)
-
-Definition e0 : edge := (0, 0).
 
 (* colours in range, edges meeting at a vertex differ, fixed colours honoured *)
 Definition valid_edge_coloringb (edges : list edge) (n : nat) (fixed : list (nat * nat)) (c : list nat) : bool :=
